@@ -154,3 +154,10 @@ func (k Keeper) CtlLocalMapPassed(a string) int {
 	ctlFill(m, a)
 	return m[a]
 }
+
+// CtlGlobalMapDelete / CtlGlobalMapPassed: a package-level map emptied / handed to a writer (must be reported).
+func CtlGlobalMapDelete(a string) { delete(registry, a) }
+
+func CtlGlobalMapPassed(a string) { ctlFill(registryInts, a) }
+
+var registryInts = map[string]int{}
